@@ -5,6 +5,7 @@ package pure
 import (
 	"fmt"
 	"reflect"
+	"runtime"
 	"sort"
 	"sync"
 	"testing"
@@ -30,7 +31,13 @@ import (
 //	        between quanta goes through the real Flush); a thin recording
 //	        wrapper around the real coalescer notes len(outCh) at every Handle
 //	        and at Flush entry, which decides "pass-through events are not held
-//	        back" from ordering alone, without any timing assumption.
+//	        back" from ordering alone, without any timing assumption;
+//	small:  the same loop against an output channel of capacity 0-2 with a
+//	        lazy consumer: a full output channel must not make the loop lose,
+//	        reorder or defer anything.
+//
+// Lamport times are a small range shifted to a boundary of the 64-bit clock in
+// some cases; names include "", case variants and a trailing space.
 //
 // Most events carry their step index as payload, so identity, order and
 // "unchanged" are all decidable; some share one of two payloads, so that tied
@@ -43,19 +50,40 @@ type c18Step struct {
 	Coalesce bool `json:"c"`
 	// Pay > 0: the payload is one of two shared values instead of the step
 	// index, so that distinct events with byte-equal payloads occur (events are
-	// then compared as values, in order and with multiplicity)
+	// then compared as values, in order and with multiplicity); 3: nil payload,
+	// 4: empty non-nil payload ("unchanged" includes that difference)
 	Pay int `json:"p,omitempty"`
 }
 
 type c18Case struct {
 	Steps []c18Step `json:"steps"`
+	// Base is added to every Lamport time: the small range of the steps then
+	// straddles a boundary of the 64-bit clock (2^31, 2^32, 2^63, the maximum)
+	Base uint64 `json:"base,omitempty"`
+	// NameSet 1: the names are "", "a", "A", "a " instead of ev0..ev3
+	NameSet int `json:"nameset,omitempty"`
+	// Small > 0: a third layer runs the real loop with an output channel of
+	// capacity Small-1 and a consumer that yields Lazy times between two reads,
+	// so that the loop finds its output channel full
+	Small int `json:"small,omitempty"`
+	Lazy  int `json:"lazy,omitempty"`
 }
+
+var c18Bases = []uint64{0, 0, 0, 1<<31 - 3, 1<<32 - 3, 1<<63 - 3, 1<<64 - 7}
+
+var c18Names = [][]string{{"ev0", "ev1", "ev2", "ev3"}, {"", "a", "A", "a "}}
 
 func genC18(t *rapid.T) c18Case {
 	n := rapid.IntRange(1, 40).Draw(t, "n")
 	names := rapid.IntRange(2, 4).Draw(t, "names")
 	maxLT := rapid.SampledFrom([]int{1, 2, 3, 3, 6}).Draw(t, "maxlt")
 	var c c18Case
+	c.Base = rapid.SampledFrom(c18Bases).Draw(t, "base")
+	c.NameSet = rapid.SampledFrom([]int{0, 0, 1}).Draw(t, "nameset")
+	c.Small = rapid.SampledFrom([]int{0, 1, 2, 3}).Draw(t, "small")
+	if c.Small > 0 {
+		c.Lazy = rapid.SampledFrom([]int{0, 1, 4}).Draw(t, "lazy")
+	}
 	for i := 0; i < n; i++ {
 		k := rapid.SampledFrom([]int{0, 0, 0, 0, 0, 0, 0, 1, 2, 3, 3}).Draw(t, "kind")
 		st := c18Step{Kind: k}
@@ -65,7 +93,7 @@ func genC18(t *rapid.T) c18Case {
 		}
 		if k == 0 {
 			st.Coalesce = rapid.IntRange(0, 5).Draw(t, "co") != 0
-			st.Pay = rapid.SampledFrom([]int{0, 0, 0, 1, 1, 2}).Draw(t, "pay")
+			st.Pay = rapid.SampledFrom([]int{0, 0, 0, 1, 1, 2, 0, 3, 4}).Draw(t, "pay")
 		}
 		c.Steps = append(c.Steps, st)
 	}
@@ -73,20 +101,30 @@ func genC18(t *rapid.T) c18Case {
 	return c
 }
 
-func c18Event(i int, st c18Step) serf.Event {
+func c18Event(c c18Case, i int, st c18Step) serf.Event {
 	pl := []byte(fmt.Sprintf("%04d", i))
-	if st.Pay > 0 {
+	switch {
+	case st.Pay == 3:
+		pl = nil
+	case st.Pay == 4:
+		pl = []byte{}
+	case st.Pay > 0:
 		pl = []byte(fmt.Sprintf("shared-%d", st.Pay))
 	}
+	name := fmt.Sprintf("ev%d", st.Name)
+	if set := c18Names[c.NameSet]; st.Name >= 0 && st.Name < len(set) {
+		name = set[st.Name]
+	}
+	lt := serf.LamportTime(c.Base + uint64(st.LTime))
 	switch st.Kind {
 	case 0:
-		return serf.UserEvent{LTime: serf.LamportTime(st.LTime), Name: fmt.Sprintf("ev%d", st.Name), Payload: pl, Coalesce: st.Coalesce}
+		return serf.UserEvent{LTime: lt, Name: name, Payload: pl, Coalesce: st.Coalesce}
 	case 1:
-		return serf.MemberEvent{Type: serf.EventMemberJoin, Members: []serf.Member{{Name: fmt.Sprintf("ev%d", st.Name), Tags: map[string]string{"i": string(pl)}}}}
+		return serf.MemberEvent{Type: serf.EventMemberJoin, Members: []serf.Member{{Name: name, Tags: map[string]string{"i": fmt.Sprint(i)}}}}
 	default:
 		// same names as the user events on purpose: a query must not be
 		// mistaken for a user event of that name
-		return &serf.Query{LTime: serf.LamportTime(st.LTime), Name: fmt.Sprintf("ev%d", st.Name), Payload: pl}
+		return &serf.Query{LTime: lt, Name: name, Payload: pl}
 	}
 }
 
@@ -217,6 +255,16 @@ func (r *c18Rec) Flush(out chan<- serf.Event) {
 }
 
 func bodyC18(c c18Case, x *vkit.Ctx) {
+	if c.NameSet < 0 || c.NameSet >= len(c18Names) || c.Small < 0 || c.Small > 64 || c.Lazy < 0 || c.Lazy > 64 {
+		x.Inconclusive("malformed case")
+		return
+	}
+	for _, st := range c.Steps {
+		if st.LTime < 0 || uint64(st.LTime) > ^uint64(0)-c.Base {
+			x.Inconclusive("malformed case: Lamport time out of range")
+			return
+		}
+	}
 	// ---------- split into quanta, build events once (shared by both layers)
 	type quantum struct {
 		evs   []serf.Event
@@ -233,7 +281,7 @@ func bodyC18(c c18Case, x *vkit.Ctx) {
 			cur = quantum{model: newC18Quantum()}
 			continue
 		}
-		e := c18Event(i, st)
+		e := c18Event(c, i, st)
 		cur.evs = append(cur.evs, e)
 		if ue, ok := e.(serf.UserEvent); ok && ue.Coalesce {
 			cur.model.coalescable[ue.Name] = append(cur.model.coalescable[ue.Name], e)
@@ -385,7 +433,107 @@ func bodyC18(c c18Case, x *vkit.Ctx) {
 		}
 	}
 
+	// ---------- layer 3: the real loop against a small output channel
+	// The loop must neither lose, reorder nor defer anything when its output
+	// channel is full: pass-through events come out in arrival order, all of
+	// them before the quantum's flush output. Everything the loop goroutine
+	// sent has been received (or sits in the channel) once Flush returned, so
+	// the final drain is exact on a loop that sends from its own goroutine.
+	if c.Small > 0 {
+		shared3 := serf.VerifNewUserCoalescer()
+		for qi, q := range quanta {
+			out := make(chan serf.Event, c.Small-1)
+			rec := &c18Rec{inner: shared3, out: out, handled: make(chan struct{}, len(q.evs)+1), flushed: make(chan struct{}, 4)}
+			shutdown := make(chan struct{})
+			stop := make(chan struct{})
+			done := make(chan []serf.Event, 1)
+			go func() {
+				var got []serf.Event
+				for {
+					select {
+					case e := <-out:
+						got = append(got, e)
+						for i := 0; i < c.Lazy; i++ {
+							runtime.Gosched()
+						}
+					case <-stop:
+						for {
+							select {
+							case e := <-out:
+								got = append(got, e)
+							default:
+								done <- got
+								return
+							}
+						}
+					}
+				}
+			}()
+			in := serf.VerifCoalescedEventCh(out, shutdown, time.Hour, time.Hour, rec)
+			for _, e := range q.evs {
+				in <- e
+			}
+			deadline := time.After(20 * time.Second)
+			starved := false
+			for range q.evs {
+				select {
+				case <-rec.handled:
+				case <-deadline:
+					starved = true
+				}
+			}
+			close(shutdown)
+			if !starved {
+				select {
+				case <-rec.flushed:
+				case <-deadline:
+					starved = true
+				}
+			}
+			close(stop)
+			all := <-done
+			if starved {
+				go func() { // keep reading so that a blocked loop can end
+					for range out {
+					}
+				}()
+				x.Inconclusive("small-channel loop did not finish in 20s")
+				return
+			}
+			want, _ := q.model.want()
+			nFlush := 0
+			for _, w := range want {
+				nFlush += len(w)
+			}
+			if len(all) != len(q.model.pass)+nFlush {
+				x.Violationf("smallch-output-count", "quantum %d (output channel capacity %d): %d events came out by the time Flush had returned, want %d pass-through + %d flushed", qi, c.Small-1, len(all), len(q.model.pass), nFlush)
+				return
+			}
+			passGot, flushGot := all[:len(q.model.pass)], all[len(q.model.pass):]
+			for i := range passGot {
+				same := reflect.DeepEqual(passGot[i], q.model.pass[i])
+				if pq, ok := q.model.pass[i].(*serf.Query); ok {
+					same = passGot[i] == serf.Event(pq)
+				}
+				if !same {
+					x.Violationf("smallch-passthrough-order", "quantum %d (output channel capacity %d): output position %d is %#v, want pass-through event %#v (pass-through events keep their order and precede the flush)", qi, c.Small-1, i, passGot[i], q.model.pass[i])
+					return
+				}
+			}
+			if !c18CompareFlush(x, "smallch", qi+1, flushGot, want) {
+				return
+			}
+		}
+		x.Labelf("small-output-channel=%d", c.Small-1)
+	}
+
 	x.Labelf("quanta=%d", min(len(quanta), 6))
+	if c.Base != 0 {
+		x.Label("lamport-times-at-a-64-bit-boundary")
+	}
+	if c.NameSet != 0 {
+		x.Label("names:empty/case/trailing-space")
+	}
 	if ties {
 		x.Label("ties-at-max")
 	}
